@@ -16,7 +16,8 @@
 (* are outside the property's wording and are not touched.                            *)
 EXTENDS Integers, Sequences, FiniteSets
 
-Kinds == {"cert", "csr", "cfca", "crl"}
+Kinds == {"cert", "csr", "cfca", "crl", "crlold",      \* crlold: the deprecated Certificate.CreateCRL / ParseDERCRL / CheckCRLSignature
+          "csrrsp"}                                   \* GM/T 0092 CSRResponse: a container of certificates (+ enveloped key); create -> parse only
 KeyTypes == {"sm2", "ecdsa", "rsa", "ed25519"}
 SigAlgOf(kt) == CASE kt = "sm2" -> "SM2-SM3" [] kt = "ecdsa" -> "ECDSA-SHA256" [] kt = "rsa" -> "SHA256-RSA" [] OTHER -> "Ed25519"
 PkAlgOf(kt) == CASE kt = "rsa" -> "RSA" [] kt = "ed25519" -> "Ed25519" [] OTHER -> "ECDSA"      \* SM2 keys are id-ecPublicKey keys
@@ -37,8 +38,10 @@ Fields(o) ==
   THEN [version |-> 3, sigalg |-> SigAlgOf(o.signer), pkalg |-> PkAlgOf(o.subj), tmpl |-> o.tmpl,
         bcValid |-> BcValid(o.tmpl), isCA |-> BcIsCA(o.tmpl), pathLen |-> BcPathLen(o.tmpl),
         selfIssued |-> (o.tmpl.issued = "self")]
-  ELSE IF o.kind = "crl"
+  ELSE IF o.kind \in {"crl", "crlold"}
   THEN [version |-> 2, sigalg |-> SigAlgOf(o.signer), tmpl |-> o.tmpl]
+  ELSE IF o.kind = "csrrsp"
+  THEN [tmpl |-> o.tmpl, certSetsPreserved |-> TRUE, keyPreserved |-> TRUE]
   ELSE [version |-> 0, sigalg |-> SigAlgOf(o.signer), pkalg |-> PkAlgOf(o.signer), tmpl |-> o.tmpl]
 
 VARIABLES o,      \* the object: [kind, tmpl, signer, subj, issuerKey, tbs, sig]
@@ -53,7 +56,7 @@ Init == o = None /\ cur = [tbs |-> <<>>, sig |-> <<>>] /\ ph = "new" /\ out = {}
 (* requests are self-signed: the key they carry is the signing key; a self-signed certificate likewise *)
 Create(kind, tmpl, signer, subj) ==
   /\ ph = "new" /\ kind \in Kinds /\ signer \in KeyTypes /\ subj \in KeyTypes
-  /\ LET selfs == kind \in {"csr", "cfca"} \/ (kind = "cert" /\ tmpl.issued = "self")
+  /\ LET selfs == kind \in {"csr", "cfca", "csrrsp"} \/ (kind = "cert" /\ tmpl.issued = "self")
          ik == Key(signer, "issuer")
          pk == IF selfs THEN ik ELSE Key(subj, "subject")
          tbs == Tbs(kind, tmpl, pk, ik)
@@ -63,17 +66,18 @@ Create(kind, tmpl, signer, subj) ==
   /\ ph' = "created" /\ out' = {"created"}
 Parse == /\ ph = "created" /\ ph' = "parsed" /\ out' = {"parsed"} /\ UNCHANGED <<o, cur>>
 Outcome(key, c) == IF Verifies(key, c.tbs, c.sig) THEN {"verifies"} ELSE {"verifyError"}
-CheckSignature == /\ ph = "parsed" /\ ph' = "checked" /\ out' = Outcome(o.issuerKey, cur) /\ UNCHANGED <<o, cur>>
+CheckSignature == /\ ph = "parsed" /\ o.kind # "csrrsp" /\ ph' = "checked" /\ out' = Outcome(o.issuerKey, cur) /\ UNCHANGED <<o, cur>>
 Tamper(region, cls, mask) ==
-  /\ ph = "parsed" /\ region \in {"tbs", "sig"} /\ mask \in 1..255
+  /\ ph = "parsed" /\ o.kind # "csrrsp" /\ region \in {"tbs", "sig"} /\ mask \in 1..255
   /\ cur' = IF region = "tbs" THEN [cur EXCEPT !.tbs = Alt(cur.tbs, region, cls, mask)] ELSE [cur EXCEPT !.sig = Alt(cur.sig, region, cls, mask)]
   /\ out' = {"parseError"} \cup Outcome(o.issuerKey, cur')
   /\ ph' = "tampered" /\ UNCHANGED o
-SwapIssuerKey(how) ==
-  /\ ph = "parsed" /\ how \in {"sameType", "otherType"} \cup (IF o.kind = "cert" /\ o.tmpl.issued # "self" THEN {"subjectKey"} ELSE {})
-  /\ LET k == IF how = "subjectKey" THEN Key(o.subj, "subject") ELSE IF how = "sameType" THEN Key(o.signer, "other")
-              ELSE Key(CHOOSE t \in KeyTypes : t # o.signer, "other")
-     IN out' = Outcome(k, cur)
+(* the signature is checked under another key: how = "other" - a key of type kt that signed nothing;          *)
+(* how = "subject" - the key the certificate certifies (issued certificates only)                             *)
+SwapIssuerKey(how, kt) ==
+  /\ ph = "parsed" /\ o.kind # "csrrsp" /\ kt \in KeyTypes
+  /\ how \in {"other"} \cup (IF o.kind = "cert" /\ o.tmpl.issued # "self" /\ kt = o.subj THEN {"subject"} ELSE {})
+  /\ out' = Outcome(IF how = "subject" THEN Key(o.subj, "subject") ELSE Key(kt, "other"), cur)
   /\ ph' = "swapped" /\ UNCHANGED <<o, cur>>
 
 (* --------------------------------------------------------- the property *)
